@@ -238,7 +238,14 @@ func (s *scheduler) hookPoint(name string) {
 		s.choosePoint()
 		return
 	}
-	if CurPath.Choose("hook-wait:"+name, "", 2) == 1 {
+	// waiting is the same as passing when nothing else can run (the waiter would be released at once)
+	alone := len(s.hookWaiters) == 0
+	for _, g := range s.runnable() {
+		if g != s.cur {
+			alone = false
+		}
+	}
+	if !alone && CurPath.Choose("hook-wait:"+name, "", 2) == 1 {
 		cur := s.cur
 		if s.hookWaiters == nil {
 			s.hookWaiters = map[string][]*gor{}
